@@ -11,10 +11,20 @@ CHECKS = {
          'the library re-loaded from the file is compared item by item (polygons, paths, labels, references, arrays, properties, units) with a '
          'model derived from the generating spec only; regions for elements GDSII cannot hold; 2nd and 3rd cycles must be fixpoints',
          'spec-derived oracle in py/model.py; outlines of non-simple paths are observed from gdstk (C07/C08 decide them); sampled libraries', '7/C01'),
+ 'C02': ('exploration', 'round-trip monitor with an exact-rational reference model: library specification vs re-loaded library after write_oas/read_oas under random option sets, fixpoint over 2-3 cycles, signature recomputed from the bytes, independent strict OASIS decoder on the file; under ASan+UBSan',
+         'cells, polygons (orientation-independent vertex cycles on the grid), simple paths (half width, extensions, centre line), labels, references (also to cells outside the library), repetitions as displacement multisets, 32-bit tags, '
+         'properties (names, value order and kinds) equal between specification and first load; cycles 2 and 3 equal the first; CRC32/CHECKSUM32 stored = recomputed = oas_validate; '
+         'shapes aimed at the rectangle/trapezoid/compact-trapezoid/circle detectors; detected circles paired within tolerance + 3 grid units',
+         'oracle in py/oasmodel.py + py/oas_codec.py; circle tolerance drawn of the order of the grid; cases with a coordinate exactly half way between grid points are skipped (counted); labels compare text, position, tag, repetition, properties', '7/C02'),
  'C03': ('exploration', 'differential monitor against an independent GDSII codec (spec-derived encoder with random legal choices + strict decoder)',
          'reader: every stream the independent encoder emits must load to the layout it encodes; writer: every file gdstk writes must pass '
          'the strict decoder and decode to the model of the spec',
          'trusts py/gds_codec.py (DESIGN.md appendix A); sampled layouts and serialisation choices', '7/C03'),
+ 'C04': ('exploration', 'differential monitor against an independent specification-derived codec: encoder with randomised serialisation choices -> read_oas -> model equality; write_oas -> strict decoder -> model equality and truth of END record, table offsets, signature and standard properties; under ASan+UBSan',
+         'reader: every record kind in the property, modal reuse of every modal variable, relative mode, repetition types 0-11, point-list types 0-5, real forms 0-7, 26 compact trapezoids, names inline / by reference / tables anywhere / strict flags, CBLOCKs, PADs, validation schemes; '
+         'writer: strict decode (END = 256 bytes, offsets point at the right record kind, signature), decoded layout = saved library, S_TOP_CELL / S_CELL_OFFSET / S_BOUNDING_BOX / S_*_MAX_* against the decoded file',
+         'the reading of SEMI P39 in DESIGN.md appendix B; the encoder never reuses a modal variable across CELL or name records; encoder and decoder are cross-checked on every case before gdstk is judged (disagreement = harness error); '
+         'modal-trace hook H2 of the design was not built: the reader is judged on end results only', '7/C04'),
  'C05': ('exploration', 'region monitor: exact integer winding numbers of the rounded operands at guarded sample points + exact area identities, under ASan+UBSan',
          'every boolean result is evaluated at <= 260 sample points per operation with exact arithmetic: membership = op(membership of operands), no point '
          'covered twice, |winding| <= 1; area identities among or/and/xor/not; chained operations feed results with slits back in',
